@@ -482,6 +482,14 @@ def check_exchange(ctx, case, enum=False):
         sb = wb.real.generate_sharedsecret_bytes()
         if sa != sb:
             raise Mismatch("exchange/parties-differ", "%s vs %s" % (sa.hex(), sb.hex()))
+        # third spelling: everything through the constructor (with and without the curve argument)
+        skB = SigningKey.from_secret_exponent(dB, curve=d.lib)
+        vkA = VerifyingKey.from_string(_pt_bytes(d, rec.mul(d.c, dA, d.G), "raw"), curve=d.lib)
+        for kwargs in ({"curve": d.lib, "private_key": skB, "public_key": vkA},
+                       {"private_key": skB, "public_key": vkA}):
+            sc = ECDH(**kwargs).generate_sharedsecret_bytes()
+            if sc != sa:
+                raise Mismatch("exchange/constructor-route-differs", "%s vs %s" % (sc.hex(), sa.hex()))
     except Mismatch as m:
         ctx.fail("exchange/" + m.sig, case, m.detail)
         return
